@@ -254,6 +254,8 @@ MUTANTS += [
     M("c15-r3-guard-without-suffix", "C15", "C15.R3", TTRUNC, "\tif len(value) > tf.maxLength+len(tf.suffix) {", "\tif len(value) > tf.maxLength {", "value length between maxLength and maxLength+len(suffix): OverwriteNTruncate overruns"),
     M("c15-r4-matched-counted-twice", "C15", "C15.R4", TDROP, "\ttf.totalMatched++\n\ttf.countRetained(record.RawLength)", "\ttf.totalMatched++\n\ttf.totalMatched++\n\ttf.countRetained(record.RawLength)", "sampling drifts away from the configured percentage"),
     M("c15-r4-retained-at-100", "C15", "C15.R4", TDROP, "\tif tf.targetRate == 100 {\n\t\ttf.countDropped(record.RawLength)\n\t\treturn base.DROP\n\t}\n", "\tif tf.targetRate == 100 && tf.totalMatched >= 0 {\n\t\ttf.countDropped(record.RawLength)\n\t\treturn base.DROP\n\t}\n", "none in practice (guard weakened path-insensitively)", expect="violation"),
+    M("c11-r9-buffer-replaced-when-large", "C11", "C11.R9", FFENC, "\tdefer enc.msgpackEncoderBuffer.Reset()\n", "\tdefer func() {\n\t\tif enc.msgpackEncoderBuffer.Cap() > 4<<20 {\n\t\t\tenc.msgpackEncoderBuffer = &bytes.Buffer{}\n\t\t} else {\n\t\t\tenc.msgpackEncoderBuffer.Reset()\n\t\t}\n\t}()\n", "a chunk whose encoded size exceeds 4 MiB: every later chunk of the pipeline loses its envelope (the encoder still writes into the old buffer)"),
+    M("c06-r5-hash-of-sanitised-name", "C06", "C06.R5", "buffer/hybridbuffer/queuedirs.go", "\t\thash := util.MD5ToHexdigest(bufferID)\n", "\t\thash := util.MD5ToHexdigest(dirname)\n", "two ids differing only by '/' vs '_': one queue directory, one .id file, each other's chunks"),
     # ---------------- C12
     B("c12-r1-benign-timestamp-not-reset", "C12", ALLOC, "\trecord.Timestamp = time.Time{}\n", ""),  # every producer assigns Timestamp before the record escapes
     M("c12-r1-new-field-not-reset", "C12", "C12.R1", "base/logrecord.go", "\tUnescaped bool      // Whether the main message field has been un-escaped. Multi-line logs start with true.\n", "\tUnescaped bool      // Whether the main message field has been un-escaped. Multi-line logs start with true.\n\tSpilled   bool      // set by a transform\n", "any transform setting the new flag: it sticks to recycled records"),
